@@ -69,15 +69,23 @@ def run(tier):
         lang, style, verb = c
         for b in range(0, len(tis), 200):
             chunk = tis[b:b + 200]
-            ops = [{"op": "set_rules_dir", "dir": "$RULES", "setup": True}, {"op": "set_pref", "name": "Language", "value": lang, "setup": True},
-                   {"op": "set_pref", "name": "SpeechStyle", "value": style, "setup": True}, {"op": "set_pref", "name": "Verbosity", "value": verb, "setup": True},
-                   {"op": "events_on", "setup": True}]
             # "unaffected by the optional-word and pause post-processing": each engine has a pause post-processing of its own
             # (merge_pauses_none / _ssml / _sapi5); sessions rotate through them and the engine's tags are taken out before judging
             engine = ["none", "SSML", "SAPI5"][len(scripts) % 3]
-            ops.insert(4, {"op": "set_pref", "name": "TTS", "value": engine, "setup": True})
+            # the four preferences are set in an order that rotates with the session (the preference that moves the decimal mark is the
+            # last one set in a quarter of the sessions), and every 40 expressions the session visits a language with the other decimal
+            # mark and comes back: the speech of an expression is owed its operands whatever was set when
+            header = [{"op": "set_pref", "name": "Language", "value": lang, "setup": True}, {"op": "set_pref", "name": "SpeechStyle", "value": style, "setup": True},
+                      {"op": "set_pref", "name": "Verbosity", "value": verb, "setup": True}, {"op": "set_pref", "name": "TTS", "value": engine, "setup": True}]
+            rot = len(scripts) % 4
+            header = header[4 - rot:] + header[:4 - rot] if rot else header
+            ops = [{"op": "set_rules_dir", "dir": "$RULES", "setup": True}] + header + [{"op": "events_on", "setup": True}]
             meta = [None] * 6
-            for ti in chunk:
+            other = next((l_ for l_ in ("en", "sv", "de", "fi") if l_ in marks and marks[l_] != marks[lang]), None)
+            for k_, ti in enumerate(chunk):
+                if other and k_ % 40 == 20:
+                    ops += [{"op": "set_pref", "name": "Language", "value": other}, {"op": "set_pref", "name": "Language", "value": lang}]
+                    meta += [None, None]
                 xml, lits = exprgen.concretise(trees[ti], marks[lang])
                 ops.append({"op": "set_mathml", "mathml": xml})
                 meta.append(None)
@@ -119,7 +127,7 @@ def run(tier):
         shape = json.dumps(trees[ti], sort_keys=True)
         text = f"{reason}: {s['cfg'][0]}/{s['cfg'][1]}/{s['cfg'][2]}: literals {missing} of {xml[:300]} not in speech {out[:300]!r}"
         verdict.reject(f"{reason}|{s['cfg'][0]}|{s['cfg'][1]}|{s['cfg'][2]}|{S.fp(shape)}", text,
-                       {"script": s["ops"][:6] + [{"op": "set_mathml", "mathml": xml}, {"op": "speech"}]},
+                       {"script": s["ops"][:6] + ([o_ for o_ in s["ops"][6:oi] if o_["op"] == "set_pref"][-2:]) + [{"op": "set_mathml", "mathml": xml}, {"op": "speech"}]},
                        text=json.dumps({"reason": reason, "lang": s["cfg"][0], "style": s["cfg"][1], "verbosity": s["cfg"][2], "lost_by_is_repetitive": by_rep, "tree": trees[ti], "speech": out[:300], "tail": out[-400:] if rr["r"] != "ok" else ""}, ensure_ascii=False))
     # (a literal spoken MORE often than it occurs - ClearSpeak's 'the interval from a to b, not including a or b' - is counted in
     #  the evidence, not reported: the statement's concern is operands that are not voiced)
